@@ -787,11 +787,10 @@ func (in *Interp) explore(cfg *HarnessCfg, fn *ssa.Function, deadline time.Time,
 				}
 			case abUnwind:
 				res.Unwind++
-				if cfg.UnwindIsHang {
-					in.recordViolation(nil, "hang", "no termination within the instruction budget", out.abort.msg)
-				} else {
-					res.note("unwind budget exceeded: %s", out.abort.msg)
-				}
+				// A path that exhausts its instruction budget may be a loop that never ends: it is a hang obligation for
+				// every harness (the native replay decides: no end within 45 s = violation; a native run that ends
+				// means the budget is too small for the harness = engine/native mismatch, exit 2). Never a silent pass.
+				in.recordViolation(nil, "hang", "no termination within the instruction budget", out.abort.msg)
 			case abDeadlock:
 				res.Deadlocks++
 				in.recordViolation(nil, "deadlock", "deadlock", out.abort.msg)
